@@ -2,6 +2,7 @@
 Op: classify <x>  ->  six T/F letters: unicast multicast loopback private link_local reserved"""
 import ipaddress
 from common import Case, W, rand_value, rand_block, errname
+import common
 import netaddr
 import netaddr.ip as nip
 from netaddr import IPNetwork, IPAddress, IPRange
@@ -193,7 +194,7 @@ def _obj(x):
         return IPAddress(x[2], x[1]) if x[3] == 'obj' else IPAddress(_astr(x[1], x[2]))
     if x[0] == 'N':
         if x[4] == 'obj':
-            return IPNetwork((x[2], x[3]), version=x[1])
+            return common.make_net(x[1], x[2], x[3])
         return IPNetwork('%s/%d' % (_astr(x[1], x[2]), x[3]))
     return IPRange(IPAddress(x[2], x[1]), IPAddress(x[3], x[1]))
 
